@@ -109,6 +109,7 @@ pub fn reasons(e: &EnumSpec) -> Vec<String> {
         no(contradictory(e, v), "attributes that contradict each other or cannot have an effect together");
         no(v.attrs().any(|a| !variant_attr_consumed(&e.derives, a)), "variant-level attribute that no derive of this enum reads");
         no(v.fields.iter().any(|f| f.default_with) && !e.derives.iter().any(|d| d == "EnumString"), "field-level default_with without EnumString");
+        no(v.kind == Kind::Tuple && v.fields.iter().any(|f| f.default_with), "field-level attribute on a tuple field, which no derive reads");
         if let Some(d) = &v.disc {
             no(d.text.contains("BASE") || d.text.contains("_DISCRIMINANT") || d.text.contains('$'), "discriminant expression");
         }
